@@ -47,7 +47,7 @@ def cases(tier, seed):
 
 def gate(agg):
     c = agg["cnt"]
-    need = ["size_limits_enumerated", "level_limits_enumerated", "fault_points_enumerated", "operations_interrupted", "resumes_compared", "returned_false", "returned_true_contract_checked", "motif_limit_errors", "candidate_limit_errors", "solver_faults_raised", "pre_expanded_runs", "attractor_query_faults"]
+    need = ["size_limits_enumerated", "level_limits_enumerated", "fault_points_enumerated", "operations_interrupted", "resumes_compared", "returned_false", "returned_true_contract_checked", "motif_limit_errors", "candidate_limit_errors", "solver_faults_raised", "pre_expanded_runs", "attractor_query_faults", "heuristic_faults_swallowed", "heuristic_runs_under_tight_limits"]
     return [f"monitor counter {k} is zero" for k in need if c.get(k, 0) == 0]
 
 
@@ -229,6 +229,30 @@ def run_case(case):
             if r2 is not True or by_space_dump(sd, ref, bb) != tdump:
                 res.v("resume-differs:bfs:motif-limit", f"expand_bfs after a max_motifs_per_node={lim} error and relaxing the limit differs from an uninterrupted run", ctx=ctx)
         for lim in (1, 2, 3):
+            # same limit, but every stub's percolated net is cached before it is expanded (the other trappist call site)
+            ctx = {"rules": rules, "max_motifs_per_node": lim, "cached_nets": True}
+            sd = fresh(cfg={"max_motifs_per_node": lim})
+            res.evals += 1
+            tried = set()
+            while True:
+                stubs = [i for i in sd.stub_ids() if i not in tried]
+                if not stubs or len(sd) > 200:
+                    break
+                for i in stubs:
+                    tried.add(i)
+                    sd.node_percolated_petri_net(i, compute=True)
+                    try:
+                        W(lambda i=i: sd.node_successors(i, compute=True), nodes=len(sd))
+                    except RuntimeError:
+                        res.c("motif_limit_errors")
+                        res.c("operations_interrupted")
+            invariants(sd, "succ:motif-limit:cached-net", ctx)
+            sd.config["max_motifs_per_node"] = 100_000
+            r2 = W(lambda: sd.expand_bfs(), nodes=len(sd))
+            res.c("resumes_compared")
+            if r2 is not True or by_space_dump(sd, ref, bb) != tdump:
+                res.v("resume-differs:bfs:motif-limit:cached-net", f"expansion with cached nets under max_motifs_per_node={lim}, then relaxed and completed, differs from an uninterrupted run", ctx=ctx)
+        for lim in (1, 2, 3):
             ctx = {"rules": rules, "attractor_candidates_limit": lim}
             sd = fresh(cfg={"attractor_candidates_limit": lim, "retained_set_optimization_threshold": 0})
             W(lambda: sd.expand_bfs())
@@ -352,6 +376,49 @@ def run_case(case):
                         res.v("resume-differs:seeds:solver-fault", f"seeds repeated after a solver failure at call {k} differ from an uninterrupted run", ctx=ctx, got=str(r2)[:300], exp=str(rt)[:300])
                 elif r2 is not True or by_space_dump(sd, ref, bb) != tdump:
                     res.v(f"resume-differs:{op}:solver-fault", f"{op} repeated after a solver failure at call {k}/{K} differs from an uninterrupted run", ctx=ctx)
+        # ============================================================ (d) heuristic strategies swallow some failures
+        # expand_block / expand_scc catch RuntimeError in their motif-avoidance checks. Whether the failure is an
+        # injected solver fault or a configured limit, what they cache ("no attractor here") must still be right.
+        for op in ("block", "scc"):
+            def runh(sd):
+                return sd.expand_block() if op == "block" else sd.expand_scc()
+
+            FaultState.calls = 0
+            FaultState.fail_at = None
+            tw = fresh()
+            W(lambda: runh(tw), nodes=len(tw))
+            K = FaultState.calls
+            ks = list(range(1, K + 1))
+            if len(ks) > 40:
+                rr = random.Random(case["rs"] + 7)
+                ks = sorted(set(ks[:15] + rr.sample(ks, 25)))
+            for k in ks:
+                ctx = {"rules": rules, "op": op, "fail_at_solver_call": k, "of": K}
+                sd = fresh()
+                FaultState.calls = 0
+                FaultState.fail_at = k
+                res.evals += 1
+                res.c("fault_points_enumerated")
+                try:
+                    W(lambda: runh(sd), nodes=len(sd))
+                    res.c("heuristic_faults_swallowed")
+                except RuntimeError:
+                    res.c("solver_faults_raised")
+                except AssertionError as e:
+                    res.v(f"assertion-under-fault:{op}", f"{op} with solver failure at call {k} raised AssertionError {e}", ctx=ctx)
+                finally:
+                    FaultState.fail_at = None
+                judge_all(sd, ref, res, f"{op}:solver-fault", bb, ctx)
+            for cfg in ({"attractor_candidates_limit": 1, "retained_set_optimization_threshold": 1}, {"attractor_candidates_limit": 2, "retained_set_optimization_threshold": 0}):
+                ctx = {"rules": rules, "op": op, "config": cfg}
+                sd = fresh(cfg=cfg)
+                res.evals += 1
+                try:
+                    W(lambda: runh(sd), nodes=len(sd))
+                    res.c("heuristic_runs_under_tight_limits")
+                except RuntimeError:
+                    res.c("operations_interrupted")
+                judge_all(sd, ref, res, f"{op}:candidate-limit", bb, ctx)
     except bb.Aborted as e:
         res.inconclusive = f"aborted: {e}"
     finally:
